@@ -14,13 +14,17 @@ import (
 	"encoding/json"
 	"errors"
 	"fmt"
+	"hash/fnv"
 	"io"
 	"math/rand"
+	"net"
 	"net/http"
 	"net/http/httptest"
 	"os"
+	"runtime/debug"
 	"strconv"
 	"strings"
+	"syscall"
 
 	"github.com/fxamacker/cbor/v2"
 	"github.com/ghodss/yaml"
@@ -49,6 +53,11 @@ type directive struct {
 	Seed  int64    `json:"seed"`
 	N     int      `json:"n"`
 	Kinds []string `json:"kinds"` // optional restriction (replay)
+	// t = "bytes": one Load* call on given bytes (replay of a call that killed the process)
+	API    string `json:"api"`
+	Hex    string `json:"hex"`
+	Target string `json:"target"`
+	Fmt    int    `json:"fmt"`
 }
 
 var (
@@ -228,6 +237,14 @@ func sniff(body []byte, v value) []int {
 	return out
 }
 
+// rng gives every (directive, kind, iteration) its own stream, so that a replay restricted to one kind
+// regenerates the same values.
+func rng(d directive, kind string, i int) *rand.Rand {
+	hsh := fnv.New64a()
+	fmt.Fprintf(hsh, "%d/%s/%d", d.Seed, kind, i)
+	return rand.New(rand.NewSource(int64(hsh.Sum64() >> 1)))
+}
+
 func kindsFor(d directive, dflt []string) []string {
 	if len(d.Kinds) > 0 {
 		return d.Kinds
@@ -266,7 +283,7 @@ func runRT(d directive, r *rand.Rand) {
 			n = 1
 		}
 		for i := 0; i < n; i++ {
-			v := genValue(kind, r)
+			v := genValue(kind, rng(d, kind, i))
 			vias := []string{"load", "asformat"}
 			api := "dump"
 			if d.C != none {
@@ -282,7 +299,7 @@ func runRT(d directive, r *rand.Rand) {
 	if d.C == none {
 		for _, kind := range kindsFor(d, []string{"doc", "gen", "bytes", "strs", "text"}) {
 			for i := 0; i < d.N; i++ {
-				reqOnce(d, genValue(kind, r))
+				reqOnce(d, genValue(kind, rng(d, "req/"+kind, i)))
 			}
 		}
 	}
@@ -495,14 +512,11 @@ func cloadOnce(d directive, v value, api string, fb int) {
 func runHdr(d directive, r *rand.Rand) {
 	kinds := kindsFor(d, []string{"doc", "gen", "bytes", "strs", "text"})
 	for i := 0; i < d.N; i++ {
-		kind := kinds[(i+int(d.Seed))%len(kinds)]
-		if i == 0 {
-			kind = kinds[0]
-		}
-		v := genValue(kind, r)
+		kind := kinds[(i+int(d.Seed%97))%len(kinds)]
+		v := genValue(kind, rng(d, kind, i))
 		respOnce(d, v, "resp")
 		respOnce(d, v, "mime")
-		fb := mimeFormats[(i+int(d.Seed))%len(mimeFormats)]
+		fb := mimeFormats[(i+int(d.Seed%89))%len(mimeFormats)]
 		for _, t := range d.Hdr { // prefer the body format the label talks about
 			if f, ok := map[string]int{"json": fJSON, "cbor": fCBOR, "msgpack": fMsg, "yaml": fYAML}[t.S]; ok && i%2 == 0 {
 				fb = f
@@ -520,13 +534,20 @@ var (
 	srv      *httptest.Server
 	srvFresh func() any
 	srvEv    event
+
+	noLoopback bool
 )
 
 func server() *httptest.Server {
-	if srv != nil {
+	if srv != nil || noLoopback {
 		return srv
 	}
-	srv = httptest.NewServer(http.HandlerFunc(func(w http.ResponseWriter, r *http.Request) {
+	ln, err := net.Listen("tcp", "127.0.0.1:0")
+	if err != nil {
+		noLoopback = true // no sockets in this environment: the echo cases are not run
+		return nil
+	}
+	srv = httptest.NewUnstartedServer(http.HandlerFunc(func(w http.ResponseWriter, r *http.Request) {
 		defer func() {
 			if p := recover(); p != nil {
 				srvEv["panic"] = fmt.Sprint(p)
@@ -548,14 +569,20 @@ func server() *httptest.Server {
 		}
 		srvEv["rok"] = true
 	}))
+	srv.Listener.Close()
+	srv.Listener = ln
+	srv.Start()
 	return srv
 }
 
 func echoOnce(d directive, v value) {
+	s := server()
+	if s == nil {
+		return
+	}
 	ev := httpEvent("echo", d, v)
 	ev["f"], ev["sok"], ev["sfmt"], ev["sgot"], ev["rok"] = d.F, false, -1, "", false
 	guard(ev, func() {
-		s := server()
 		srvFresh, srvEv = v.fresh, ev
 		r, err := http.NewRequest(http.MethodPost, s.URL+"/echo", nil)
 		if err != nil {
@@ -592,7 +619,7 @@ func echoOnce(d directive, v value) {
 func runEcho(d directive, r *rand.Rand) {
 	for _, kind := range kindsFor(d, []string{"doc", "gen", "bytes", "strs", "text"}) {
 		for i := 0; i < d.N; i++ {
-			echoOnce(d, genValue(kind, r))
+			echoOnce(d, genValue(kind, rng(d, kind, i)))
 		}
 	}
 }
@@ -615,10 +642,14 @@ func targets() map[string]func() any {
 var targetNames = []string{"doc", "gen", "meta", "bytes", "strs", "text", "map", "any"}
 
 func totalOnce(api, cls string, data []byte, target string, f int) {
-	ev := event{"e": "total", "api": api, "cls": cls, "n": len(data), "target": target, "fmt": f, "ok": false,
-		"hex": hex.EncodeToString(data)}
+	ev := event{"e": "total", "api": api, "cls": cls, "n": len(data), "target": target, "fmt": f, "ok": false, "hex": ""}
+	if len(data) <= 1<<16 {
+		ev["hex"] = hex.EncodeToString(data)
+	} else {
+		ev["big"] = true // reproduced from the directive
+	}
 	// a decoder may kill the process (allocation of a length read from the data): leave a mark
-	tr.EmitRaw(map[string]any{"e": "try", "h": h, "api": api, "cls": cls, "target": target, "fmt": f, "hex": ev["hex"]})
+	tr.EmitRaw(map[string]any{"e": "try", "h": h, "api": api, "cls": cls, "target": target, "fmt": f, "hex": ev["hex"], "n": len(data)})
 	tr.Flush()
 	guard(ev, func() {
 		t := targets()[target]()
@@ -699,6 +730,51 @@ func mutate(blob []byte, mk string, ma int, r *rand.Rand) ([]byte, bool) {
 			inner = inner[:ma]
 		}
 		return append([]byte{fGZIP}, gz(inner)...), true
+	case "lenbomb":
+		id, n := leadID(b)
+		wrapped := false
+		if id == fGZIP {
+			inner, ok := gunzip(b[n:])
+			if !ok {
+				return nil, false
+			}
+			b, wrapped = inner, true
+			id, n = leadID(b)
+		}
+		hdr, ok := bombs[id]
+		if !ok || n == 0 {
+			return nil, false
+		}
+		out := append(append(append([]byte(nil), b[:n]...), hdr[ma]...), b[n:]...)
+		if wrapped {
+			out = append([]byte{fGZIP}, gz(out)...)
+		}
+		return out, true
+	case "nest":
+		id, n := leadID(b)
+		wrapped := false
+		if id == fGZIP {
+			inner, ok := gunzip(b[n:])
+			if !ok {
+				return nil, false
+			}
+			b, wrapped = inner, true
+			id, n = leadID(b)
+		}
+		open, ok := nesters[id]
+		if !ok || n == 0 {
+			return nil, false
+		}
+		depth := 1
+		for i := 0; i < ma; i++ {
+			depth *= 10
+		}
+		out := append(append([]byte(nil), b[:n]...), bytes.Repeat(open, depth)...)
+		out = append(out, b[n:]...)
+		if wrapped {
+			out = append([]byte{fGZIP}, gz(out)...)
+		}
+		return out, true
 	case "gzhdr":
 		if 1+ma >= len(b) {
 			return nil, false
@@ -708,6 +784,34 @@ func mutate(blob []byte, mk string, ma int, r *rand.Rand) ([]byte, bool) {
 	}
 	return nil, false
 }
+
+// collection headers that declare far more elements/bytes than the data holds (strings: 256 MiB, which
+// some decoders really allocate; collections: 2^31-1 and more)
+var bombs = map[int][][]byte{
+	fMsg: {
+		{0xdf, 0x7f, 0xff, 0xff, 0xff},       // map32
+		{0xdf, 0x37, 0xa4, 0xb0, 0xcb},       // map32
+		{0xdd, 0x7f, 0xff, 0xff, 0xff},       // array32
+		{0xdb, 0x0f, 0xff, 0xff, 0xff},       // str32
+		{0xc6, 0x0f, 0xff, 0xff, 0xff},       // bin32
+		{0xde, 0xff, 0xff},                   // map16
+		{0x91, 0xdf, 0x7f, 0xff, 0xff, 0xff}, // [map32]
+		{0xc9, 0x0f, 0xff, 0xff, 0xff, 0x01}, // ext32
+	},
+	fCBOR: {
+		{0xbb, 0, 0, 0, 0, 0x7f, 0xff, 0xff, 0xff},                   // map, 8 byte length
+		{0xba, 0x37, 0xa4, 0xb0, 0xcb},                               // map, 4 byte length
+		{0x9a, 0x7f, 0xff, 0xff, 0xff},                               // array
+		{0x7a, 0x0f, 0xff, 0xff, 0xff},                               // text
+		{0x5a, 0x0f, 0xff, 0xff, 0xff},                               // bytes
+		{0xb9, 0xff, 0xff},                                           // map, 2 byte length
+		{0x81, 0xba, 0x7f, 0xff, 0xff, 0xff},                         // [map]
+		{0xc1, 0x9b, 0x7f, 0xff, 0xff, 0xff, 0xff, 0xff, 0xff, 0xff}, // tag 1, array with 2^63-1 elements
+	},
+}
+
+// openers of a one-element collection: repeated, they nest the payload deeply
+var nesters = map[int][]byte{fMsg: {0x91}, fCBOR: {0x81}, fJSON: {'['}, fYAML: {'['}}
 
 func runCorrupt(d directive, r *rand.Rand) {
 	F := resolve(d.F, fJSON)
@@ -721,7 +825,7 @@ func runCorrupt(d directive, r *rand.Rand) {
 		kinds = []string{"doc", "text", "gen", "strs"}
 	}
 	for i := 0; i < d.N; i++ {
-		kind := kinds[(i+int(d.Seed))%len(kinds)]
+		kind := kinds[(i+int(d.Seed%97))%len(kinds)]
 		v := genValue(kind, r)
 		var blob []byte
 		var err error
@@ -738,7 +842,11 @@ func runCorrupt(d directive, r *rand.Rand) {
 			continue
 		}
 		cls := fmt.Sprintf("%s:%d:f%d:c%d", d.Mk, d.Ma, d.F, d.C)
-		for _, tn := range []string{kind, "any", targetNames[(i+d.Ma)%len(targetNames)]} {
+		tns := []string{kind, "any", targetNames[(i+d.Ma)%len(targetNames)]}
+		if d.Mk == "lenbomb" || (d.Mk == "nest" && d.Ma < 6) {
+			tns = targetNames
+		}
+		for _, tn := range tns {
 			totalOnce("Load", cls, bad, tn, 0)
 		}
 		_, n := leadID(bad)
@@ -829,6 +937,10 @@ func run(d directive) {
 		runCorrupt(d, r)
 	case "random":
 		runRandom(d, r)
+	case "bytes":
+		if b, err := hex.DecodeString(d.Hex); err == nil {
+			totalOnce(d.API, "bytes", b, d.Target, d.Fmt)
+		}
 	}
 }
 
@@ -837,6 +949,14 @@ func main() {
 		fmt.Fprintln(os.Stderr, "usage: dsdx <directives> <trace> [skip]")
 		os.Exit(2)
 	}
+	// A decoder that allocates what a length field in the data says must not take the machine down:
+	// the address space is bounded at 12 GiB, so the runtime gives up at once on a larger request
+	// ("out of memory": the process dies, which the check reports). Allocations of a few GiB succeed
+	// as on any ordinary machine; the soft memory limit makes the collector return them before the
+	// next call, so that only a single huge request can hit the bound.
+	lim := syscall.Rlimit{Cur: 12 << 30, Max: 12 << 30}
+	_ = syscall.Setrlimit(syscall.RLIMIT_AS, &lim)
+	debug.SetMemoryLimit(1 << 30)
 	skip := 0
 	if len(os.Args) > 3 {
 		skip, _ = strconv.Atoi(os.Args[3])
